@@ -1,0 +1,137 @@
+//! Verification hooks. This module only exists when the crate is compiled with
+//! `--cfg flexi_logger_verif`; without that flag none of this code, and none of the
+//! guarded call-site lines, is compiled.
+//!
+//! With the flag on and no handler installed every hook is inert.
+#![allow(missing_docs)]
+#![allow(clippy::missing_errors_doc, clippy::missing_panics_doc, clippy::must_use_candidate)]
+
+use chrono::DateTime;
+use std::path::Path;
+use std::sync::{Arc, RwLock};
+
+/// A synchronisation-relevant step that is about to be taken by the calling thread.
+#[derive(Clone, Debug, PartialEq, Eq, Hash)]
+pub enum Op {
+    /// About to acquire the lock identified by `(kind, id)`; may block.
+    Acquire(&'static str, usize),
+    /// The lock identified by `(kind, id)` has been released (never blocks).
+    Release(&'static str, usize),
+    /// About to send a message into channel `(kind, id)` (never blocks, but is visible).
+    Send(&'static str, usize),
+    /// About to receive from channel `(kind, id)`; blocks while the channel is empty.
+    Recv(&'static str, usize),
+    /// A thread of the given kind has just been spawned by the caller.
+    Spawned(&'static str),
+    /// About to join the thread with the given id; blocks until that thread has exited.
+    Join(std::thread::ThreadId),
+    /// A timer-driven loop is about to wait for its next tick.
+    Tick(&'static str),
+    /// A plain scheduling point.
+    Point(&'static str),
+}
+
+pub trait Handler: Send + Sync {
+    /// Virtual "now"; `None` means: use the real clock.
+    fn now(&self) -> Option<DateTime<chrono::Local>> {
+        None
+    }
+    /// Virtual creation time of `path`; `None` means: ask the file system.
+    fn created(&self, _path: &Path) -> Option<DateTime<chrono::Local>> {
+        None
+    }
+    /// Called directly before a file-system effect. Returning `Err` makes the call site behave
+    /// as if the file-system call itself had failed with that error (where the site propagates).
+    fn fs_point(&self, _site: &'static str, _path: &Path) -> std::io::Result<()> {
+        Ok(())
+    }
+    /// Called directly before (for `Release`: after) a synchronisation step.
+    fn sync_op(&self, _op: Op) {}
+}
+
+static HANDLER: RwLock<Option<Arc<dyn Handler>>> = RwLock::new(None);
+
+/// Installs (or, with `None`, removes) the process-wide handler.
+pub fn install(handler: Option<Arc<dyn Handler>>) {
+    *HANDLER.write().unwrap_or_else(std::sync::PoisonError::into_inner) = handler;
+}
+
+fn handler() -> Option<Arc<dyn Handler>> {
+    HANDLER
+        .read()
+        .unwrap_or_else(std::sync::PoisonError::into_inner)
+        .clone()
+}
+
+pub fn now() -> Option<DateTime<chrono::Local>> {
+    handler().and_then(|h| h.now())
+}
+
+pub fn now_or(real: DateTime<chrono::Local>) -> DateTime<chrono::Local> {
+    now().unwrap_or(real)
+}
+
+pub fn created(path: &Path) -> Option<DateTime<chrono::Local>> {
+    handler().and_then(|h| h.created(path))
+}
+
+pub fn fs_point(site: &'static str, path: &Path) -> std::io::Result<()> {
+    match handler() {
+        Some(h) => h.fs_point(site, path),
+        None => Ok(()),
+    }
+}
+
+pub fn sync_op(op: Op) {
+    if let Some(h) = handler() {
+        h.sync_op(op);
+    }
+}
+
+pub fn id_of<T: ?Sized>(arc: &Arc<T>) -> usize {
+    Arc::as_ptr(arc).cast::<()>() as usize
+}
+
+/// Announces `Acquire` when created and `Release` when dropped. Declared *before* the real
+/// guard, it is dropped *after* it.
+pub struct LockScope(&'static str, usize);
+impl LockScope {
+    pub fn new(kind: &'static str, id: usize) -> Self {
+        sync_op(Op::Acquire(kind, id));
+        Self(kind, id)
+    }
+}
+impl Drop for LockScope {
+    fn drop(&mut self) {
+        sync_op(Op::Release(self.0, self.1));
+    }
+}
+
+/// Stand-in for `chrono::Local` in function bodies that call `Local::now()`.
+pub struct Local;
+impl Local {
+    pub fn now() -> DateTime<chrono::Local> {
+        now_or(chrono::Local::now())
+    }
+}
+
+thread_local! {
+    static SPAWN_CTX: std::cell::Cell<usize> = const { std::cell::Cell::new(0) };
+}
+/// Hands a value from the spawning thread to the code that builds a thread closure.
+pub fn set_spawn_ctx(value: usize) {
+    SPAWN_CTX.with(|c| c.set(value));
+}
+pub fn spawn_ctx() -> usize {
+    SPAWN_CTX.with(std::cell::Cell::get)
+}
+
+pub fn tid_hash(id: std::thread::ThreadId) -> usize {
+    use std::hash::{Hash, Hasher};
+    let mut h = std::collections::hash_map::DefaultHasher::new();
+    id.hash(&mut h);
+    #[allow(clippy::cast_possible_truncation)]
+    {
+        h.finish() as usize
+    }
+}
